@@ -9,6 +9,7 @@ import (
 	"strconv"
 	"time"
 
+	"verifmc/internal/env"
 	"verifmc/internal/ev"
 	"verifmc/internal/props"
 )
@@ -17,10 +18,23 @@ func main() {
 	prop := flag.String("prop", "", "property id (C01..C20)")
 	tier := flag.String("tier", "quick", "quick|thorough")
 	replay := flag.String("replay", "", "replay file")
+	child := flag.String("child", "", "internal: run as a cage worker for the named case family")
+	from := flag.Int("from", 0, "internal: first case id of a cage worker")
+	stride := flag.Int("stride", 1, "internal: case id stride of a cage worker")
 	flag.Parse()
 	debug.SetGCPercent(400)
 	if t := os.Getenv("VERIF_TIER"); t != "" && *tier == "" {
 		*tier = t
+	}
+	if *child != "" {
+		fam, ok := props.CageFamilies[*child]
+		if !ok {
+			fmt.Println("unknown cage family", *child)
+			os.Exit(2)
+		}
+		total, run := fam(*tier)
+		env.ChildLoop(total, *from, *stride, 6<<30, run)
+		return
 	}
 	d, ok := props.Drivers[*prop]
 	if !ok {
